@@ -712,7 +712,7 @@ def main(argv):
     if a.replay:
         return replay(a.replay)
     rep = harness.Report(PROP, a.tier, a.seed, "exploration")
-    nproc, nex = (32, 200) if a.tier == "quick" else (320, 1200)
+    nproc, nex = (32, 500) if a.tier == "quick" else (320, 1200)
     jobs = [{"hseed": core.h64(a.seed, "c26", i) % (2**31), "examples": nex} for i in range(nproc)]
     results = harness.pmap(hunt, jobs, chunk=1, hang_s=1500)
     tot = {"runs": 0, "phases": 0}
